@@ -17,6 +17,10 @@ use serde_json::{Value, json};
 pub struct Case {
     pub sc: Scenario,
     pub select_seed: u64,
+    /// second run: the write of the terminal packet (timeout Disconnect / Store Cookie / Transfer) stays
+    /// pending for this many ms (0 = no second run)
+    #[serde(default)]
+    pub delay_terminal_ms: u8,
 }
 
 pub struct C07;
@@ -251,7 +255,24 @@ impl Check for C07 {
         "C07"
     }
     fn strategy(&self, _tier: Tier) -> BoxedStrategy<Case> {
-        (scenario_strategy(false), any::<u64>()).prop_map(|(sc, select_seed)| Case { sc, select_seed }).boxed()
+        (scenario_strategy(false), any::<u64>(), prop_oneof![1 => Just(0u8), 2 => 1u8..=3, 1 => 4u8..=50], any::<u8>())
+            .prop_map(|(mut sc, select_seed, delay_terminal_ms, aim)| {
+                // a share of scenarios in which routing completes 1-3 ms after a keep-alive deadline: the window in
+                // which a pending timeout Disconnect meets a completing backend call
+                if aim % 4 == 0 && delay_terminal_ms > 0 {
+                    sc.ack_delay_ms = 0;
+                    sc.info_delay_ms = Some(1);
+                    sc.adapters.auth_ms = 0;
+                    sc.adapters.discovery_ms = 0;
+                    sc.adapters.filter_ms = 0;
+                    sc.adapters.strategy_ms = 32_000 + u32::from(aim % 3);
+                    sc.echo = vec![Echo::Never];
+                    sc.extras.clear();
+                    sc = untie(sc);
+                }
+                Case { sc, select_seed, delay_terminal_ms }
+            })
+            .boxed()
     }
     fn cases(&self, tier: Tier) -> u64 {
         tier.pick(6_000, 200_000)
@@ -266,6 +287,29 @@ impl Check for C07 {
             info.class("client_information:never");
         }
         let v = decide(case, &out, &tl, &mut info);
+        if !matches!(v, Verdict::Pass) || case.delay_terminal_ms == 0 {
+            return (v, info);
+        }
+        // second run: the terminal packet's write stays pending for a moment. Whatever completes meanwhile, the
+        // client gets the same terminal packet, nothing after it, and the connection ends the same way.
+        let first_terminal = out.cb.iter().position(|(_, p)| matches!(p, Pkt::CfgStoreCookie { .. } | Pkt::CfgTransfer { .. } | Pkt::CfgDisconnect { .. }));
+        let Some(j) = first_terminal else { return (v, info) };
+        let mut wscript = vec![sim::WStep::All; j];
+        wscript.push(sim::WStep::PendingFor(u16::from(case.delay_terminal_ms)));
+        let (out2, _) = timed::run(&case.sc, &TransportScript { wscript, rscript: vec![] }, &SegPlan::new(), case.select_seed);
+        info.class("second_run:terminal_write_pending");
+        let view = |o: &sim::SimOutcome| -> Vec<String> { o.cb.iter().skip(j).map(|(_, p)| crate::checks::c08::stable(p)).collect() };
+        if let sim::ServerEnd::Panicked { msg } = &out2.end {
+            return (Verdict::Fail { sig: "panic".into(), msg: format!("handler panicked: {msg}") }, info);
+        }
+        if out2.stream_broken.is_some() || view(&out) != view(&out2) || out.returned_ok() != out2.returned_ok() {
+            let timed_out = out.cb.iter().any(|(_, p)| is_timeout_disconnect(p));
+            let sig = if timed_out { "timeout-outcome-depends-on-write-timing" } else { "outcome-depends-on-write-timing" };
+            return (
+                Verdict::Fail { sig: sig.into(), msg: format!("with the write of packet #{j} pending for {} ms the client received {:?} (end {}), otherwise {:?} (end {}); stream {:?}", case.delay_terminal_ms, view(&out2), out2.end_label(), view(&out), out.end_label(), out2.stream_broken) },
+                info,
+            );
+        }
         (v, info)
     }
     fn rule(&self) -> String {
